@@ -1,6 +1,6 @@
 CONSTANTS
   Alphabet = {65, 61, 34, 92, 32, 47, 160}
-  MaxLen = 7
+  MaxLen = 9
   Defects = {}
   Emit = TRUE
 SPECIFICATION Spec
